@@ -211,7 +211,7 @@ theorem stack_transparent_raise (s : Sig) (body : PDict → Res Val) :
 /-! ## no double wrapping
 
 A decorated function is a chain of wrappers with pairwise distinct classes — the invariant the constructor
-maintains (`mk_keeps_distinct`) and that holds for a plain function.  `Fn.Eqv` is python's `==` on wrappers
+maintains (`mk_keeps_distinct`) and that holds for a plain function.  `WFn.Eqv` is python's `==` on wrappers
 without the memo field. -/
 
 /-- the constructor keeps the classes of a chain distinct: no wrapper class ever occurs twice -/
@@ -222,8 +222,8 @@ theorem mk_keeps_distinct (ds : List (Cls × PDict)) (base : Nat) :
 /-- **Wrapping twice with the same decorator through a chain of other decorators equals wrapping once**:
 `W(D₁(…Dₙ(W(f))…)) == W(D₁(…Dₙ(f)…))` for any decorated `f` and any other decorators `D₁ … Dₙ`. -/
 theorem wrap_chain_idem (cls : Cls) (kw : PDict) (hn : (kw.map (·.1)).Nodup) (ds : List (Cls × PDict))
-    (hds : ∀ d ∈ ds, d.1 ≠ cls) (fn : Fn) (h : (classes fn.chain).Nodup) :
-    Fn.Eqv (mk cls kw (mkMany ds (mk cls kw fn))) (mk cls kw (mkMany ds fn)) := by
+    (hds : ∀ d ∈ ds, d.1 ≠ cls) (fn : WFn) (h : (classes fn.chain).Nodup) :
+    WFn.Eqv (mk cls kw (mkMany ds (mk cls kw fn))) (mk cls kw (mkMany ds fn)) := by
   have hg := mk_nodup cls kw fn h
   have hY := mkMany_nodup ds _ hg
   have hZ := mkMany_nodup ds _ h
@@ -268,13 +268,13 @@ theorem wrap_chain_idem (cls : Cls) (kw : PDict) (hn : (kw.map (·.1)).Nodup) (d
       intro k; rfl
 
 /-- **Wrapping twice with the same decorator equals wrapping once**: `W(W(f)) == W(f)` -/
-theorem wrap_idem (cls : Cls) (kw : PDict) (hn : (kw.map (·.1)).Nodup) (fn : Fn) (h : (classes fn.chain).Nodup) :
-    Fn.Eqv (mk cls kw (mk cls kw fn)) (mk cls kw fn) :=
+theorem wrap_idem (cls : Cls) (kw : PDict) (hn : (kw.map (·.1)).Nodup) (fn : WFn) (h : (classes fn.chain).Nodup) :
+    WFn.Eqv (mk cls kw (mk cls kw fn)) (mk cls kw fn) :=
   wrap_chain_idem cls kw hn [] (by simp) fn h
 
 /-- what a (re-)applied decorator does to a decorated function: it goes on top, any earlier wrapper of its class
 is cut out, every other wrapper stays in place -/
-theorem mk_shape (cls : Cls) (kw : PDict) (fn : Fn) (h : (classes fn.chain).Nodup) :
+theorem mk_shape (cls : Cls) (kw : PDict) (fn : WFn) (h : (classes fn.chain).Nodup) :
     classes (mk cls kw fn).chain = cls :: (classes fn.chain).filter (· != cls) ∧
     (mk cls kw fn).base = fn.base := by
   rw [mk_chain cls kw fn h]
@@ -283,13 +283,13 @@ theorem mk_shape (cls : Cls) (kw : PDict) (fn : Fn) (h : (classes fn.chain).Nodu
 
 /-- non-vacuity: `try_none(kwargs_support(cache(f)))` re-wrapped with `cache` -/
 example :
-    let f : Fn := mkMany [(.cache, []), (.kwargsSupport, []), (.tryValue, [("value", .cell .none)])] { chain := [], base := 0 }
+    let f : WFn := mkMany [(.cache, []), (.kwargsSupport, []), (.tryValue, [("value", .cell .none)])] { chain := [], base := 0 }
     classes f.chain = [.tryValue, .kwargsSupport, .cache] ∧ (classes f.chain).Nodup ∧
     classes (mk .cache [] f).chain = [.cache, .tryValue, .kwargsSupport] := by
   decide
 
 /-- **The wrapper reports f's argument specification** — whatever is stacked on it -/
-theorem spec_forwarded (env : Nat → Sig) (ds : List (Cls × PDict)) (fn : Fn) :
+theorem spec_forwarded (env : Nat → Sig) (ds : List (Cls × PDict)) (fn : WFn) :
     specOf env (mkMany ds fn) = specOf env fn := by
   unfold mkMany
   induction ds generalizing fn with
